@@ -20,6 +20,13 @@ THEOREMS = [
     # plane normal = reciprocal-lattice direction, zone law
     'C16.idx_cross_parallel', 'C16.planeInPlane_zero', 'C16.cross_of_lattice_vectors', 'C16.normal_is_reciprocal',
     'C16.normal_unit_along_reciprocal', 'C16.normal_left_handed', 'C16.recip_dot_lattice', 'C16.normal_perp_iff_zone',
+    # cells in any orientation: V -> V.R rotates vectors and normals along (mirror images flip the normal)
+    'C16.rot_rows_cross', 'C16.cross_vecMul_rot', 'C16.normal_rotation_covariant', 'C16.normal_reflection_flips',
+    'C16.vector_rotation_covariant', 'C16.det_mul', 'C16.normal_unit_along_reciprocal_rotated', 'C16.normal_cubic_rotated',
+    # the Box OBJECT: answers depend on the current cell only, reciprocal_vects cache valid after any history,
+    # vectors/normals/family do not see the origin, a vector is a difference of positions
+    'C16.BoxObj.cacheValid_run', 'C16.BoxObj.reciprocalVects_run', 'C16.BoxObj.queries_after_set',
+    'C16.BoxObj.queries_origin_independent', 'C16.BoxObj.vector_is_position_difference',
     # centering tables (generated from miller.py)
     'C16.centering_inverse', 'C16.centering_det',
     # reduce_indices / all_indices
@@ -299,6 +306,255 @@ def _float_cell(rng):
     return am.Box(a=a, b=b, c=c, alpha=al, beta=be, gamma=ga)
 
 
+# ---- rigidly moved cells, origins, object histories -------------------------------------------
+def _signed_perms():
+    """the 48 signed permutation matrices (exact in double), split into proper (det +1) and improper (det -1)."""
+    from itertools import permutations
+    prop, improp = [], []
+    for perm in permutations(range(3)):
+        for sg in product((1, -1), repeat=3):
+            m = [[0] * 3 for _ in range(3)]
+            for i in range(3):
+                m[i][perm[i]] = sg[i]
+            (prop if _det3(m) == 1 else improp).append(m)
+    return prop, improp
+
+
+def _rot_matrix(rng):
+    """exact rational proper rotation from an integer quaternion (not the identity, not a signed permutation
+    in general) -> 3x3 list of Fractions with R R^T = 1, det R = 1."""
+    while True:
+        w, x, y, z = (rng.randint(-4, 4) for _ in range(4))
+        n = w * w + x * x + y * y + z * z
+        if n == 0 or (x, y, z) == (0, 0, 0):
+            continue
+        m = [[w * w + x * x - y * y - z * z, 2 * (x * y - w * z), 2 * (x * z + w * y)],
+             [2 * (x * y + w * z), w * w - x * x + y * y - z * z, 2 * (y * z - w * x)],
+             [2 * (x * z - w * y), 2 * (y * z + w * x), w * w - x * x - y * y + z * z]]
+        if sum(1 for r in m for v in r if v != 0) == 3:
+            continue            # a signed permutation: generated separately
+        return [[Fraction(v, n) for v in r] for r in m]
+
+
+def _move(vects, M):
+    """every cell vector mapped by M (rows of vects times M), double arithmetic -> nested list of floats."""
+    np = _np()
+    return (np.asarray(vects, dtype=float) @ np.array([[float(v) for v in r] for r in M])).tolist()
+
+
+def _gen_origin(rng):
+    if rng.random() < 0.2:
+        return [0.0, 0.0, 0.0]
+    return [cm.dyadic(rng, -8, 8, 2) for _ in range(3)]
+
+
+def _ctor_args(rng, fam):
+    """generic constructor parameters of one family -> (args, a..gamma keyword dict of Box(a=...))."""
+    a, b, c = _generic_lengths(rng)
+    if fam == 'cubic':
+        return (a,), dict(a=a, b=a, c=a, alpha=90, beta=90, gamma=90)
+    if fam == 'hexagonal':
+        return (a, c), dict(a=a, b=a, c=c, alpha=90, beta=90, gamma=120)
+    if fam == 'tetragonal':
+        return (a, c), dict(a=a, b=a, c=c, alpha=90, beta=90, gamma=90)
+    if fam == 'rhombohedral':
+        while True:
+            al = rng.uniform(40.0, 118.0)
+            if abs(al - 90) > 1.5:
+                return (a, al), dict(a=a, b=a, c=a, alpha=al, beta=al, gamma=al)
+    if fam == 'orthorhombic':
+        return (a, b, c), dict(a=a, b=b, c=c, alpha=90, beta=90, gamma=90)
+    if fam == 'monoclinic':
+        be = rng.uniform(92.0, 135.0)
+        return (a, b, c, be), dict(a=a, b=b, c=c, alpha=90, beta=be, gamma=90)
+    al, be, ga = _tri_angles(rng)
+    r = rng.random()
+    if r < 0.15:            # a triclinic cell may have ONE right angle (not alpha and gamma both: that is monoclinic)
+        be = 90.0
+    elif r < 0.25:
+        ga = 90.0
+    elif r < 0.35:
+        al = 90.0
+    ca, cb, cg = (math.cos(math.radians(x)) for x in (al, be, ga))
+    if 1 - ca * ca - cb * cb - cg * cg + 2 * ca * cb * cg < 0.1:
+        al, be, ga = _tri_angles(rng)
+    return (a, b, c, al, be, ga), dict(a=a, b=b, c=c, alpha=al, beta=be, gamma=ga)
+
+
+CTOR = {'cubic': 'cubic', 'hexagonal': 'hexagonal', 'tetragonal': 'tetragonal', 'rhombohedral': 'trigonal',
+        'orthorhombic': 'orthorhombic', 'monoclinic': 'monoclinic', 'triclinic': 'triclinic'}
+ORIENTS = ['std', 'rot', 'perm', 'refl']
+
+
+def _gen_cell(rng, kind=None, orient=None, origin=None):
+    """one cell of the property's quantifier as plain data:
+    kind   = one of FAMILIES (built by the family constructor with generic parameters) | 'dyadic' | 'float-triclinic'
+    orient = 'std' (as the constructor gives it: LAMMPS orientation) | 'rot' (every cell vector rotated by an exact
+             rational rotation, rounded to double) | 'perm' (proper signed permutation of the Cartesian axes: exact) |
+             'refl' (improper signed permutation: the mirror image, LEFT-handed)
+    -> dict(label, family (None when not built as a family), vects, origin, abc (a..gamma kwargs when orient = std), hand)"""
+    import atomman as am
+    kind = kind or rng.choice(FAMILIES + ['dyadic', 'float-triclinic'])
+    orient = orient or rng.choice(ORIENTS)
+    abc = None
+    fam = None
+    args = None
+    if kind == 'dyadic':
+        base = _dyadic_cell(rng).vects.tolist()
+        if orient == 'rot':
+            orient = 'perm'             # stay on the dyadic grid
+    elif kind == 'float-triclinic':
+        base = _float_cell(rng).vects.tolist()
+    else:
+        fam = kind
+        args, abc = _ctor_args(rng, fam)
+        base = getattr(am.Box, CTOR[fam])(*args).vects.tolist()
+    prop, improp = _signed_perms()
+    if orient == 'std':
+        vects = base
+    elif orient == 'rot':
+        vects = _move(base, _rot_matrix(rng))
+    elif orient == 'perm':
+        vects = _move(base, rng.choice(prop[1:]))
+    else:
+        vects = _move(base, rng.choice(improp))
+    return {'label': f'{kind}/{orient}', 'family': fam, 'args': None if args is None else list(args),
+            'vects': vects, 'origin': _gen_origin(rng) if origin is None else list(origin),
+            'abc': abc if orient == 'std' else None, 'hand': 'left' if orient == 'refl' else 'right'}
+
+
+SETTERS = ['vects=', 'set', 'set_vectors', 'box_set', 'box_set_scale', 'model']
+
+
+def _step_to(rng, cell):
+    """one state-changing step that takes an existing Box object to `cell` -> {'op', 'kw'} (plain data)."""
+    ops = list(SETTERS)
+    if cell.get('abc'):
+        ops += ['set_abc', 'set_abc']
+    op = rng.choice(ops)
+    if op == 'set_abc':
+        return {'op': op, 'kw': dict(cell['abc'], origin=cell['origin'])}
+    return {'op': op, 'kw': {'vects': cell['vects'], 'origin': cell['origin']}}
+
+
+def _near_cell(rng, cell):
+    """a slightly different cell (one lattice vector stretched by ~1e-3..1e-2, or sheared a little): the 'small change'
+    of set -> read -> small change -> read sequences."""
+    v = [list(r) for r in cell['vects']]
+    r = rng.random()
+    i = rng.randrange(3)
+    if r < 0.5:
+        f = 1.0 + rng.choice([2.0 ** -10, 2.0 ** -7, -2.0 ** -8])
+        v[i] = [x * f for x in v[i]]
+    else:
+        j = (i + 1 + rng.randrange(2)) % 3
+        f = rng.choice([2.0 ** -9, -2.0 ** -7])
+        v[i] = [x + f * y for x, y in zip(v[i], v[j])]
+    return {'label': cell['label'] + '/near', 'family': None, 'args': None, 'vects': v, 'origin': _gen_origin(rng),
+            'abc': None, 'hand': cell['hand']}
+
+
+def _gen_spec(rng, cell, history=None):
+    """how a Box object comes to hold `cell`: built fresh, or an object that held other cells before (each earlier
+    state is queried through every function of the property before the next setter is applied).
+    -> {'new': kwargs, 'then': [{'op','kw'}...]}"""
+    history = history if history is not None else rng.choice([0, 1, 1, 1, 2, 3])
+    if history == 0:
+        if cell.get('abc') and rng.random() < 0.5:
+            return {'new': dict(cell['abc'], origin=cell['origin']), 'then': []}
+        return {'new': {'vects': cell['vects'], 'origin': cell['origin']}, 'then': []}
+    prevs = []
+    for h in range(history):
+        r = rng.random()
+        if r < 0.35:
+            prevs.append(_near_cell(rng, cell))
+        elif r < 0.5:
+            prevs.append({'unit': True})
+        else:
+            prevs.append(_gen_cell(rng))
+    first = prevs[0]
+    spec = {'new': {} if first.get('unit') else {'vects': first['vects'], 'origin': first['origin']}, 'then': []}
+    for pc in prevs[1:]:
+        spec['then'].append({'op': 'set()', 'kw': {}} if pc.get('unit') else _step_to(rng, pc))
+    spec['then'].append(_step_to(rng, cell))
+    return spec
+
+
+PREDS = ['iscubic', 'ishexagonal', 'istetragonal', 'isrhombohedral', 'isorthorhombic', 'ismonoclinic', 'istriclinic']
+ALT_TOL = (2.0 ** -9, 2.0 ** -12)
+
+
+def _query_all(box, probes):
+    """ask an object everything the property talks about (results discarded; exceptions are not ours to report
+    here): whatever it remembers from these answers must not leak into the answers about its next cell."""
+    np = _np()
+    calls = [lambda: box.identifyfamily(), lambda: box.identifyfamily(rtol=ALT_TOL[0], atol=ALT_TOL[1]),
+             lambda: box.identifyfamily(1e-5, 1e-8), lambda: box.reciprocal_vects,
+             lambda: [getattr(box, p)() for p in PREDS], lambda: (box.a, box.b, box.c, box.alpha, box.beta, box.gamma),
+             lambda: box.position_cartesian_to_relative([0.5, 0.25, 0.125])]
+    for key, meth in (('planes', 'plane_crystal_to_cartesian'), ('vectors', 'vector_crystal_to_cartesian')):
+        rows = [list(r) for r in (probes or {}).get(key, [])]
+        rows = rows or [[1, 1, 1], [1, -2, 3], [0, 1, 0]]
+        for k in (3, 4):
+            rk = [r for r in rows if len(r) == k]
+            if rk:
+                calls.append(lambda rk=rk, meth=meth: getattr(box, meth)(np.array(rk)))
+                for r in rk[:24]:
+                    calls.append(lambda r=r, meth=meth: getattr(box, meth)(r))
+    for f in calls:
+        try:
+            with np.errstate(all='ignore'):
+                f()
+        except Exception:  # noqa
+            pass
+
+
+def _apply_step(box, st):
+    """apply one recorded setter to the object -> the object to go on with (System.box for the box_set forms)."""
+    import atomman as am
+    op, kw = st['op'], dict(st['kw'])
+    if op == 'vects=':
+        box.vects = kw['vects']
+        box.origin = kw['origin']
+    elif op in ('set', 'set_abc'):
+        box.set(**kw)
+    elif op == 'set()':
+        box.set()
+    elif op == 'set_vectors':
+        box.set(avect=kw['vects'][0], bvect=kw['vects'][1], cvect=kw['vects'][2], origin=kw['origin'])
+    elif op in ('box_set', 'box_set_scale'):
+        system = am.System(atoms=am.Atoms(pos=[[0.25, 0.5, 0.125], [0.0, 0.0, 0.0]]), box=box, scale=True)
+        system.box_set(vects=kw['vects'], origin=kw['origin'], scale=(op == 'box_set_scale'))
+        box = system.box
+    elif op == 'model':
+        box.model(model=am.Box(vects=kw['vects'], origin=kw['origin']).model())
+    else:
+        raise cm.InfraError(f'harness: unknown setter {op}')
+    return box
+
+
+def _build(spec, probes=None):
+    """execute a spec on the real class -> Box object (exceptions of the implementation propagate to the caller,
+    which reports them with the spec)."""
+    import atomman as am
+    box = am.Box(**spec['new'])
+    for st in spec.get('then', []):
+        _query_all(box, probes)
+        box = _apply_step(box, st)
+    return box
+
+
+def _spec_of(r):
+    """replay files: new ones carry the object's whole history ('spec'), old ones only 'vects'."""
+    if 'spec' in r:
+        return r['spec']
+    return {'new': {'vects': r['vects']}, 'then': []}
+
+
+def _hist(spec):
+    return 'fresh' if not spec.get('then') else '->'.join(st['op'] for st in spec['then'])
+
+
 def _params(box):
     return [float(box.a), float(box.b), float(box.c), float(box.alpha), float(box.beta), float(box.gamma)]
 
@@ -520,6 +776,18 @@ def correspond(ctx):
         cells.append(('dyadic', _dyadic_cell(rng)))
     for _ in range(ctx.n(1, 6)):
         cells.append(('float-triclinic', _float_cell(rng)))
+    for j, (fam, box) in enumerate(cells):         # non-zero origins on the constructor cells too
+        if j % 2 == 1:
+            box.origin = _gen_origin(rng)
+    moved = []
+    for fam in FAMILIES:                            # every family: rotated (right-handed) + axis-permuted or mirrored
+        for orient in ('rot', rng.choice(['perm', 'refl'])):
+            moved.append(_gen_cell(rng, fam, orient))
+    moved.append(_gen_cell(rng, 'dyadic', 'perm'))
+    moved.append(_gen_cell(rng, 'dyadic', 'refl'))
+    moved.append(_gen_cell(rng, 'float-triclinic', 'rot'))
+    for c in moved:
+        cells.append((c['label'], am.Box(vects=c['vects'], origin=c['origin'])))
     ctx.extra['cells'] = [c[0] for c in cells]
 
     # ---- G. family predicates on the constructor cells (several per family) -----------------
@@ -561,6 +829,44 @@ def correspond(ctx):
               {'params': par, 'rtol': rtol, 'atol': atol})
     B.run()
 
+    # real Box objects (any orientation) near the isclose boundary, non-default tolerances through the METHODS
+    for it in range(ctx.n(250, 3000)):
+        rtol, atol = rng.choice([(2.0 ** -10, 2.0 ** -20), (1e-5, 1e-8), (2.0 ** -6, 2.0 ** -3), (2.0 ** -7, 2.0 ** -9)])
+
+        def near(x):
+            tol = atol + rtol * abs(x)
+            return x + rng.choice([0.0, 0.5, 0.9, 1.1, 2.0, 40.0, -0.5, -0.9, -1.1, -2.0, -40.0]) * tol
+        a = cm.dyadic(rng, 2, 9, 4)
+        b = rng.choice([near(a), near(a), cm.dyadic(rng, 2, 9, 4)])
+        c = rng.choice([near(a), near(a), cm.dyadic(rng, 2, 9, 4)])
+        al = rng.choice([near(90.0), near(90.0), cm.dyadic(rng, 60, 120, 2)])
+        be = rng.choice([near(90.0), near(al), cm.dyadic(rng, 60, 120, 2)])
+        ga = rng.choice([near(90.0), near(120.0), near(60.0), near(al), cm.dyadic(rng, 60, 120, 2)])
+        ca, cb, cg = (math.cos(math.radians(x)) for x in (al, be, ga))
+        if 1 - ca * ca - cb * cb - cg * cg + 2 * ca * cb * cg < 0.05:
+            continue
+        box, e0 = _call(lambda: am.Box(a=a, b=b, c=c, alpha=al, beta=be, gamma=ga))
+        if e0 is not None:
+            continue
+        if it % 3 == 1:
+            box = am.Box(vects=_move(box.vects, _rot_matrix(rng)), origin=_gen_origin(rng))
+        par = _params(box)
+        style = it % 3
+        if style == 0:
+            impl, e = _call(lambda: (box.identifyfamily(rtol=rtol, atol=atol),
+                                     [getattr(box, p)(rtol=rtol, atol=atol) for p in preds_box]))
+        elif style == 1:
+            impl, e = _call(lambda: (box.identifyfamily(rtol, atol), [getattr(box, p)(rtol, atol) for p in preds_box]))
+        else:
+            impl, e = _call(lambda: (box.identifyfamily(atol=atol, rtol=rtol),
+                                     [getattr(box, p)(atol=atol, rtol=rtol) for p in preds_box]))
+        B.add('family:Box-boundary', _fam_line(par, rtol, atol), impl, e, _cmp_fam,
+              {'params': par, 'rtol': rtol, 'atol': atol, 'vects': box.vects.tolist()})
+    B.run()
+
+    # ---- H. ONE Box object through a history of setters; every function of the property asked after each -------
+    _corr_objects(ctx, B, rng, quads_ok, atol_s)
+
     # ---- B/C. Cartesian vectors and plane normals per cell ------------------------------------
     exhaustive_cells = ctx.n(9, 14)
     for ci, (label, box) in enumerate(cells):
@@ -579,6 +885,14 @@ def correspond(ctx):
                   sample={'op': 'plane_crystal_to_cartesian', 'cell': label, 'vects': V.tolist(), 'hkl': list(t)})
         r, e = _call(box.plane_crystal_to_cartesian, [0, 0, 0])
         B.add('plane_normal:zero', f'plane {hx} {atol_s} {Vs} 0 0 0', r, e, _cmp_plane(Vfr), {'cell': label}, nontrivial=False)
+        # the other entry point (stand-alone functions of atomman.tools.miller given the box)
+        for t in rng.sample(nz, ctx.n(60, 400)):
+            r, e = _call(miller.plane_crystal_to_cartesian, list(t), box)
+            B.add('plane_normal:miller', f'plane {hx} {atol_s} {Vs} %d %d %d' % t, r, e, _cmp_plane(Vfr),
+                  {'cell': label, 'vects': V.tolist(), 'origin': box.origin.tolist(), 'hkl': list(t)})
+            r, e = _call(miller.vector_crystal_to_cartesian, list(t), box)
+            B.add('vector_cart:miller', f'vc2c {hx} {atol_s} {Vs} %d %d %d' % t, r, e, _cmp_close(1e-14, 1e-13),
+                  {'cell': label, 'vects': V.tolist(), 'origin': box.origin.tolist(), 'uvw': list(t)})
         _shape_variants(ctx, 'plane_crystal_to_cartesian', box.plane_crystal_to_cartesian, np.array(nz), normals,
                         extra={'cell': label})
         crows, carts = _vcall(box.vector_crystal_to_cartesian, S)
@@ -703,6 +1017,103 @@ def correspond(ctx):
     B.run()
 
 
+def _cmp_ok(impl, out):
+    return None if out == 'ok' else f'model answered {out}'
+
+
+def _cmp_recip(impl, out):
+    model = [float(x) for x in cm.unfrs(out)]
+    vals = _np().asarray(impl).ravel().tolist()
+    scale = max(abs(x) for x in model)
+    if len(vals) != 9 or any(not (abs(v - m) <= 1e-9 * scale) for v, m in zip(vals, model)):
+        return f'implementation reciprocal_vects {vals} != model {model}'
+    return None
+
+
+def _corr_objects(ctx, B, rng, quads_ok, atol_s):
+    """the model's BoxObj (driver state) and one real Box object are taken through the same history:
+    new -> queries -> setter -> queries -> ...; the model is told the state the real object reports after each setter
+    (vects, origin, measured a..gamma), so what is compared is every ANSWER about the current cell: family +
+    predicates (two tolerance pairs), three- and four-index vectors and plane normals, reciprocal_vects,
+    position_relative_to_cartesian."""
+    np = _np()
+    import atomman as am
+
+    def state(box):
+        return cm.frs(box.vects) + ' ' + cm.frs(box.origin) + ' ' + ' '.join(cm.fr(x) for x in _params(box))
+
+    def queries(box, info, probes, tolseq):
+        V = box.vects
+        Vfr = [[Fraction(float(x)) for x in row] for row in V]
+        for rtol, atol in tolseq:
+            if (rtol, atol) == (1e-5, 1e-8) and rng.random() < 0.5:
+                impl, e = _call(lambda: (box.identifyfamily(), [getattr(box, p)() for p in PREDS]))
+            else:
+                impl, e = _call(lambda: (box.identifyfamily(rtol=rtol, atol=atol),
+                                         [getattr(box, p)(rtol=rtol, atol=atol) for p in PREDS]))
+            B.add('object:family', f'bfam {cm.fr(rtol)} {cm.fr(atol)}', impl, e, _cmp_fam, info)
+        for t in probes['planes']:
+            if any(t[:2]) or t[-1]:
+                r, e = _call(box.plane_crystal_to_cartesian, list(t))
+                B.add('object:plane', f'bplane {atol_s} ' + ' '.join(map(str, t)), r, e, _cmp_plane(Vfr), dict(info, hkl=list(t)))
+        for t in probes['vectors']:
+            r, e = _call(box.vector_crystal_to_cartesian, list(t))
+            B.add('object:vector', f'bvc2c {atol_s} ' + ' '.join(map(str, t)), r, e, _cmp_close(1e-14, 1e-13),
+                  dict(info, uvw=list(t)))
+        sp = [cm.dyadic(rng, -2, 2, 3) for _ in range(3)]
+        r, e = _call(box.position_relative_to_cartesian, sp)
+        B.add('object:position', 'bpos ' + cm.frs(sp), r, e, _cmp_close(1e-13, 1e-12), dict(info, relpos=sp))
+        if rng.random() < 0.7:
+            r, e = _call(lambda: box.reciprocal_vects)
+            B.add('object:reciprocal_vects', 'brecip', r, e, _cmp_recip, info)
+
+    for it in range(ctx.n(70, 600)):
+        cellseq = [_gen_cell(rng)]
+        for _ in range(rng.randint(1, 3)):
+            r = rng.random()
+            cellseq.append(_near_cell(rng, cellseq[-1]) if r < 0.3 else _gen_cell(rng))
+        # the same index sets before and after every setter (an answer remembered per index set would show)
+        probes = {'planes': [tuple(rng.randint(-5, 5) for _ in range(3)) for _ in range(3)] + [rng.choice(quads_ok)],
+                  'vectors': [tuple(rng.randint(-5, 5) for _ in range(3)) for _ in range(2)] + [rng.choice(quads_ok)]}
+        # which tolerances are asked, in which order, is fixed per object (a one-slot memo keyed on the tolerances
+        # shows only when the same pair is asked before and after a setter)
+        tolseq = rng.choice([[(1e-5, 1e-8)], [(1e-5, 1e-8)], [ALT_TOL], [(1e-5, 1e-8), ALT_TOL], [ALT_TOL, (1e-5, 1e-8)],
+                             [(1e-5, 1e-8), ALT_TOL, (1e-5, 1e-8)]])
+        first = cellseq[0]
+        hist = ['new']
+        box, e = _call(lambda: am.Box(vects=first['vects'], origin=first['origin']))
+        if e is not None:
+            ctx.disagree('object:new', f'Box(vects, origin) raised {e}', {'op': 'object', 'cells': cellseq})
+            continue
+        info = {'cells': [c['label'] for c in cellseq], 'history': list(hist), 'vects': box.vects.tolist(),
+                'origin': box.origin.tolist()}
+        B.add('object:new', 'bnew ' + state(box), 'ok', None, _cmp_ok, info, nontrivial=False)
+        queries(box, info, probes, tolseq)
+        for c in cellseq[1:]:
+            st = _step_to(rng, c)
+            if rng.random() < 0.15:                 # origin alone first
+                o2 = _gen_origin(rng)
+                box.origin = o2
+                B.add('object:origin=', 'bseto ' + cm.frs(box.origin), 'ok', None, _cmp_ok, info, nontrivial=False)
+                hist.append('origin=')
+                queries(box, dict(info, history=list(hist), origin=box.origin.tolist()), probes, tolseq)
+            try:
+                box = _apply_step(box, st)
+            except cm.InfraError:
+                raise
+            except Exception as ex:  # noqa
+                ctx.disagree('object:setter', f'{st["op"]} raised {type(ex).__name__}: {ex}',
+                             {'op': 'object', 'step': st, 'history': hist})
+                break
+            hist.append(st['op'])
+            info = {'cells': [c2['label'] for c2 in cellseq], 'history': list(hist), 'vects': box.vects.tolist(),
+                    'origin': box.origin.tolist(), 'step': st}
+            B.add('object:' + st['op'], 'bset ' + state(box), 'ok', None, _cmp_ok, info, nontrivial=False,
+                  sample={'op': 'object-history', 'history': list(hist), 'cell': c['label']})
+            queries(box, info, probes, tolseq)
+        B.run()
+
+
 def _malformed(rng, n):
     out = ['[1 0 0', '(1 0 0]', '[1 0 0)', '{1 0 0', '<1 1 -2 0', '[1 2]', '[1 2 3 4 5]', '[]', '[ ]',
            '1/0 [1 0 0]', '1/2/3 [1 0 0]', '2 [1 0 0]', '1/2 [1 0]', '1/-0 (1 1 1)', '1 2', '1 2 3 4 5', '',
@@ -807,15 +1218,18 @@ def _o_roundtrip34(ctx, np, miller, t):
                         {'op': 'roundtrip34', 'idx': t})
 
 
-def _o_same_direction(ctx, np, miller, hexbox, t):
-    """[uvtw] denotes u a1 + v a2 + t a3 + w c with a3 = -a1-a2; must equal the 3-index Cartesian vector."""
+def _o_same_direction(ctx, np, miller, hexbox, t, spec=None):
+    """[uvtw] denotes u a1 + v a2 + t a3 + w c with a3 = -a1-a2; must equal the 3-index Cartesian vector
+    (whatever the orientation of the hexagonal cell, its origin, and what the object held before)."""
     t = list(t)
     V = [[_F(x) for x in row] for row in hexbox.vects]
     a1, a2, c = V
     a3 = [-(x + y) for x, y in zip(a1, a2)]
     q = _ref_vector3to4(t)
     cart4, e = _call(hexbox.vector_crystal_to_cartesian, q)
-    cart3 = hexbox.vector_crystal_to_cartesian(t)
+    cart3, e3 = _call(hexbox.vector_crystal_to_cartesian, t)
+    if e3 is not None:
+        cart3, e = np.full(3, np.nan), e3
     want3 = [t[0] * a1[i] + t[1] * a2[i] + t[2] * c[i] for i in range(3)]
     qf = [_F(x) for x in q]
     want4 = [qf[0] * a1[i] + qf[1] * a2[i] + qf[2] * a3[i] + qf[3] * c[i] for i in range(3)]
@@ -823,39 +1237,54 @@ def _o_same_direction(ctx, np, miller, hexbox, t):
     if e is not None or not cm.allclose(cart3.tolist(), want3, 1e-13, 1e-13 * scale) \
             or not cm.allclose(cart4.tolist(), want4, 1e-12, 1e-12 * scale) \
             or not cm.allclose(cart4.tolist(), want3, 1e-12, 1e-12 * scale):
+        rp = {'op': 'same_direction', 'idx': t, 'vects': hexbox.vects.tolist(), 'origin': hexbox.origin.tolist()}
+        if spec is not None:
+            rp['spec'] = spec
         ctx.violate('vector4:direction', f'[uvw]={t} and its four-index form {q.tolist()} give different Cartesian vectors '
-                    f'{cart3.tolist()} vs {None if cart4 is None else cart4.tolist()} ({e})',
-                    {'op': 'same_direction', 'idx': t, 'vects': hexbox.vects.tolist()})
+                    f'{cart3.tolist()} vs {None if cart4 is None else cart4.tolist()} ({e}); exact u a+v b+w c = '
+                    f'{[float(x) for x in want3]} (cell origin {hexbox.origin.tolist()}, object history '
+                    f'{_hist(spec or {})})', rp)
 
 
-def _o_vector_cart(ctx, np, miller, box, label, uvw):
-    """[uvw] denotes u a + v b + w c (exact), through the Box method and the stand-alone function alike."""
+def _o_vector_cart(ctx, np, miller, box, label, uvw, spec=None):
+    """[uvw] denotes u a + v b + w c (exact), through the Box method and the stand-alone function alike; a VECTOR
+    does not see the box origin."""
     uvw = list(uvw)
     V = [[_F(x) for x in row] for row in box.vects]
     want = [sum(uvw[i] * V[i][j] for i in range(3)) for j in range(3)]
     scale = max(1.0, max(abs(float(x)) for x in want))
-    replay = {'op': 'vector_cart', 'uvw': uvw, 'vects': box.vects.tolist(), 'cell': label}
+    replay = {'op': 'vector_cart', 'uvw': uvw, 'vects': box.vects.tolist(), 'origin': box.origin.tolist(), 'cell': label}
+    if spec is not None:
+        replay['spec'] = spec
     for nm, f in (('Box.vector_crystal_to_cartesian', box.vector_crystal_to_cartesian),
                   ('miller.vector_crystal_to_cartesian', lambda x: miller.vector_crystal_to_cartesian(x, box))):
         r, e = _call(f, uvw)
         if e is not None or np.asarray(r).shape != (3,) or not cm.allclose(np.asarray(r).tolist(), want, 1e-14, 1e-14 * scale):
             ctx.violate('vector_cart:value', f'{nm}({uvw}) in a {label} cell is {e or np.asarray(r).tolist()}, '
-                        f'u a + v b + w c is {[float(x) for x in want]}', replay)
+                        f'u a + v b + w c is {[float(x) for x in want]} (vects {box.vects.tolist()}, origin '
+                        f'{box.origin.tolist()}, object history {_hist(spec or {})})', replay)
             return
 
 
-def _o_normal(ctx, np, box, label, hkl, rng, quad=None):
+def _o_normal(ctx, np, box, label, hkl, rng, quad=None, spec=None, entry='Box'):
     """normal = unit vector along h a*+k b*+l c* (right-handed cell); perpendicular to exactly the zone-law vectors.
     With `quad` = (h k i l), i = -(h+k), on a hexagonal cell the four-index form is what is passed to the code: it
     denotes the same plane, hence the same normal."""
     hkl = list(hkl)
     V = [[_F(x) for x in row] for row in box.vects]
     g, det = _recip_dir(V, hkl)
-    if det <= 0:
+    if det == 0:
         return
     given = hkl if quad is None else list(quad)
-    n, e = _call(box.plane_crystal_to_cartesian, given)
-    replay = {'op': 'normal', 'hkl': hkl, 'vects': box.vects.tolist(), 'cell': label}
+    if entry == 'Box':
+        n, e = _call(box.plane_crystal_to_cartesian, given)
+    else:
+        from atomman.tools import miller as _m
+        n, e = _call(_m.plane_crystal_to_cartesian, given, box)
+    replay = {'op': 'normal', 'hkl': hkl, 'vects': box.vects.tolist(), 'origin': box.origin.tolist(), 'cell': label,
+              'entry': entry}
+    if spec is not None:
+        replay['spec'] = spec
     if quad is not None:
         replay['quad'] = given
     if e is not None:
@@ -866,7 +1295,15 @@ def _o_normal(ctx, np, box, label, hkl, rng, quad=None):
                     f'{np.asarray(n).shape}', replay)
         return
     gn = math.sqrt(float(_fdot(g, g)))
-    unit = [float(x) / gn for x in g]
+    sd = 1.0 if det > 0 else -1.0
+    unit = [sd * float(x) / gn for x in g]          # g = det V * (h a* + k b* + l c*)
+    hand = 1.0
+    if det < 0:
+        # a LEFT-handed cell is outside the property's quantifier as far as the SENSE of the normal goes:
+        # the line of the normal, its unit length and the zone law still apply
+        hand = 1.0 if sum(a * b for a, b in zip(np.asarray(n).tolist(), unit)) >= 0 else -1.0
+        unit = [hand * x for x in unit]
+        det = -det
     rown = [math.sqrt(float(_fdot(r, r))) for r in V]
     # conditioning of the two-vector construction is not visible here: bound it by the worst in-plane pair the
     # code can pick, |a|,|b| <= 2*lcm * max row norm
@@ -879,8 +1316,9 @@ def _o_normal(ctx, np, box, label, hkl, rng, quad=None):
     tol = min(max(tol, 1e-12), 1e-6)
     nl = n.tolist()
     if not all(abs(a - b) <= tol for a, b in zip(nl, unit)) or abs(sum(x * x for x in nl) - 1.0) > 1e-12:
-        ctx.violate('plane_normal:reciprocal', f'normal of {given} in a {label} cell is {nl}, the unit reciprocal-lattice '
-                    f'direction of {hkl} is {unit}', dict(replay, impl=nl, expected=unit))
+        ctx.violate('plane_normal:reciprocal', f'normal of {given} in a {label} cell ({entry} entry point) is {nl}, the unit '
+                    f'reciprocal-lattice direction of {hkl} is {unit} (vects {box.vects.tolist()}, object history '
+                    f'{_hist(spec or {})})', dict(replay, impl=nl, expected=unit))
         return
     # zone law on lattice vectors
     for _ in range(4):
@@ -893,29 +1331,32 @@ def _o_normal(ctx, np, box, label, hkl, rng, quad=None):
         cart = [sum(uvw[i] * V[i][j] for i in range(3)) for j in range(3)]
         cn = math.sqrt(float(_fdot(cart, cart)))
         d = sum(a * float(b) for a, b in zip(nl, cart))
-        want = z * float(det) / gn          # n . (uvw V) = (hu+kv+lw) / |G|,  |G| = gn / det
+        want = hand * z * float(det) / gn   # n . (uvw V) = (hu+kv+lw) / |G|,  |G| = gn / det
         if abs(d - want) > (tol * 4) * cn + 1e-12:
             ctx.violate('plane_normal:zone', f'normal of {hkl} in a {label} cell: n.[uvw]={uvw} is {d}, zone law gives '
                         f'{want} (hu+kv+lw = {z})', dict(replay, uvw=uvw))
             return
 
 
-def _o_plane4_guard(ctx, np, hexbox, otherbox, otherlabel, q):
+def _o_plane4_guard(ctx, np, hexbox, otherbox, otherlabel, q, hexspec=None, otherspec=None):
     """four-index planes/vectors: rejected when h+k+i != 0 and on cells that are not hexagonal."""
     q = list(q)
     bad = [q[0], q[1], q[2] + 1, q[3]]
+    extra = {}
+    if hexspec is not None:
+        extra = {'hexspec': hexspec, 'otherspec': otherspec}
     for nm in ('plane_crystal_to_cartesian', 'vector_crystal_to_cartesian'):
         r, e = _call(getattr(hexbox, nm), bad)
         if e != 'err:value':
             ctx.violate(nm + ':guard4', f'{nm}({bad}) on a hexagonal cell is accepted ({e or np.asarray(r).tolist()}) although '
-                        'h+k+i != 0', {'op': 'plane4_guard', 'quad': q, 'hex': hexbox.vects.tolist(),
-                                       'other': otherbox.vects.tolist(), 'otherlabel': otherlabel})
+                        'h+k+i != 0', dict({'op': 'plane4_guard', 'quad': q, 'hex': hexbox.vects.tolist(),
+                                            'other': otherbox.vects.tolist(), 'otherlabel': otherlabel}, **extra))
         r, e = _call(getattr(otherbox, nm), q)
         if e != 'err:value':
             ctx.violate(nm + ':nonhex4', f'{nm}({q}) on a {otherlabel} cell is accepted ({e or np.asarray(r).tolist()}): '
                         'four indices only denote something in a hexagonal cell',
-                        {'op': 'plane4_guard', 'quad': q, 'hex': hexbox.vects.tolist(),
-                         'other': otherbox.vects.tolist(), 'otherlabel': otherlabel})
+                        dict({'op': 'plane4_guard', 'quad': q, 'hex': hexbox.vects.tolist(),
+                              'other': otherbox.vects.tolist(), 'otherlabel': otherlabel}, **extra))
 
 
 def _o_guard_array(ctx, np, miller, rows, offs, shape=None):
@@ -966,7 +1407,7 @@ def _shape_fn(am, miller, name, extra):
         return getattr(miller, name)
     if name in ('vector_primitive_to_conventional', 'vector_conventional_to_primitive'):
         return lambda x: getattr(miller, name)(x, extra['setting'])
-    box = am.Box(vects=extra['vects'])
+    box = _build(extra['spec']) if 'spec' in extra else am.Box(vects=extra['vects'])
     if name in ('vector_crystal_to_cartesian', 'plane_crystal_to_cartesian'):
         return getattr(box, name)
     if name in ('miller.vector_crystal_to_cartesian', 'miller.plane_crystal_to_cartesian'):
@@ -1236,6 +1677,72 @@ def _o_family(ctx, np, fam, args, box):
                     {'op': 'family', 'family': fam, 'args': list(args)})
 
 
+FAM_PRED = {'cubic': 'iscubic', 'hexagonal': 'ishexagonal', 'tetragonal': 'istetragonal',
+            'rhombohedral': 'isrhombohedral', 'orthorhombic': 'isorthorhombic', 'monoclinic': 'ismonoclinic',
+            'triclinic': 'istriclinic'}
+
+
+def _o_family_obj(ctx, np, cell, spec, box):
+    """a cell built as a family (in ANY orientation, at any origin, in a fresh object or in one that held other cells
+    and was asked about them before) is identified as that family: by Box.identifyfamily, by its own predicate, by
+    the stand-alone functions; and the object answers like a fresh Box of the same vects (both tolerance pairs)."""
+    import atomman as am
+    from atomman.tools import crystalsystem
+    fam = cell.get('family')
+    label = cell.get('label', '?')
+    replay = {'op': 'family_obj', 'cell': cell, 'spec': spec}
+    how = f'{label} cell, object history {_hist(spec)}, vects {box.vects.tolist()}'
+    fresh, ef = _call(lambda: am.Box(vects=box.vects, origin=box.origin))
+    if ef is not None:
+        ctx.violate('family:object', f'Box(vects=box.vects, origin=box.origin) raised {ef} ({how})', replay)
+        return
+    for tol in ((), ALT_TOL):
+        got, e = _call(box.identifyfamily, *tol)
+        ref, e2 = _call(fresh.identifyfamily, *tol)
+        bits, e3 = _call(lambda: [bool(getattr(box, p)(*tol)) for p in PREDS])
+        rbits, e4 = _call(lambda: [bool(getattr(fresh, p)(*tol)) for p in PREDS])
+        if e or e2 or e3 or e4:
+            ctx.violate('family:object', f'identifyfamily/is<family> raised {e or e2 or e3 or e4} ({how})', replay)
+            return
+        if got != ref or bits != rbits:
+            ctx.violate('family:object-stale', f'identifyfamily{tol} = {got!r}, predicates {[int(b) for b in bits]}; a fresh Box '
+                        f'with the same vects and origin says {ref!r}, {[int(b) for b in rbits]} ({how})', replay)
+            return
+        if got is not None and not bits[PREDS.index(FAM_PRED[got])]:
+            ctx.violate('family:object-stale', f'identifyfamily{tol} = {got!r} but {FAM_PRED[got]}{tol} is False ({how})', replay)
+            return
+        if got is None and any(bits):
+            ctx.violate('family:object-stale', f'identifyfamily{tol} = None but predicates {[int(b) for b in bits]} ({how})', replay)
+            return
+        if fam is not None and not tol:
+            got2, e5 = _call(crystalsystem.identifyfamily, box)
+            own2, e6 = _call(getattr(crystalsystem, FAM_PRED[fam]), box)
+            if got != fam or not bits[PREDS.index(FAM_PRED[fam])] or e5 or e6 or got2 != fam or not own2:
+                ctx.violate('family:' + fam, f'cell built as {fam}{tuple(cell.get("args") or ())} ({how}) is identified as {got!r} '
+                            f'(Box.{FAM_PRED[fam]}: {bits[PREDS.index(FAM_PRED[fam])]}; crystalsystem: {got2!r}, {own2})', replay)
+                return
+
+
+def _o_params(ctx, np, box, label, spec=None):
+    """Box.a..gamma are the lengths of and angles between the ACTUAL cell vectors (exact Gram matrix of box.vects)."""
+    V = [[_F(x) for x in row] for row in box.vects]
+    G = [[_fdot(V[i], V[j]) for j in range(3)] for i in range(3)]
+    got, e = _call(lambda: _params(box))
+    replay = {'op': 'params', 'vects': box.vects.tolist(), 'cell': label}
+    if spec is not None:
+        replay['spec'] = spec
+    if e is not None:
+        ctx.violate('params:lengths-angles', f'Box.a..gamma raised {e} on vects {box.vects.tolist()}', replay)
+        return
+    ok = all(abs(got[i] ** 2 - float(G[i][i])) <= 1e-13 * float(G[i][i]) for i in range(3))
+    for ang, (i, j) in zip(got[3:], ((1, 2), (0, 2), (0, 1))):
+        c = float(G[i][j]) / math.sqrt(float(G[i][i]) * float(G[j][j]))
+        ok = ok and abs(math.cos(math.radians(ang)) - c) <= 1e-12 and 0.0 < ang < 180.0
+    if not ok:
+        ctx.violate('params:lengths-angles', f'Box.a..gamma = {got} are not the lengths/angles of vects {box.vects.tolist()} '
+                    f'({label} cell, object history {_hist(spec or {})})', replay)
+
+
 def _guard(ctx, key, replay, fn, *args):
     """an oracle clause must not die on a raising implementation: report the exception as the failing input."""
     try:
@@ -1276,29 +1783,65 @@ def search(ctx, broken):
     for t in tri:
         ctx.stats.case('oracle:roundtrip34', t)
         _guard(ctx, 'roundtrip34', {'op': 'roundtrip34', 'idx': list(t)}, _o_roundtrip34, ctx, np, miller, t)
-    # 2. same Cartesian direction in hexagonal cells
-    for _ in range(ctx.n(3, 10) * mult):
-        a, b, c = _generic_lengths(rng)
-        hb = am.Box.hexagonal(a, c)
-        for t in rng.sample(tri, ctx.n(150, 600)):
-            ctx.stats.case('oracle:same_direction', (a, c, t))
-            _guard(ctx, 'vector4:direction', {'op': 'same_direction', 'idx': list(t), 'vects': hb.vects.tolist()},
-                   _o_same_direction, ctx, np, miller, hb, t)
-    # 3. plane normals: every family + dyadic + float triclinic; exhaustive triples on the first cells
-    cells = [(fam, box) for fam, args, box in _family_cells(rng)]
-    cells += [('dyadic', _dyadic_cell(rng)) for _ in range(ctx.n(2, 6) * mult)]
-    cells += [('float-triclinic', _float_cell(rng)) for _ in range(ctx.n(1, 6) * mult)]
+    def build(cell, spec, probes):
+        """the real object of a cell description; an exception of the implementation while it is brought there is
+        the observation to report"""
+        try:
+            with np.errstate(all='ignore'):
+                return _build(spec, probes)
+        except cm.InfraError:
+            raise
+        except Exception as ex:  # noqa
+            ctx.violate('object:setter-raises', f'bringing a Box object to a {cell["label"]} cell raised {type(ex).__name__}: '
+                        f'{ex} (history {_hist(spec)})', {'op': 'family_obj', 'cell': cell, 'spec': spec})
+            return None
+
+    # 2. same Cartesian direction in hexagonal cells: every orientation, non-zero origins, fresh and re-used objects
+    for hi in range(ctx.n(6, 16) * mult):
+        cell = _gen_cell(rng, 'hexagonal', ORIENTS[hi % 4])
+        spec = _gen_spec(rng, cell)
+        sel = rng.sample(tri, ctx.n(80, 400))
+        hb = build(cell, spec, {'vectors': [list(t) for t in sel[:40]] + [_ref_vector3to4(t).tolist() for t in sel[:40]]})
+        if hb is None:
+            continue
+        for t in sel:
+            ctx.stats.case('oracle:same_direction', (hi, cell['label'], _hist(spec), t))
+            _guard(ctx, 'vector4:direction', {'op': 'same_direction', 'idx': list(t), 'spec': spec},
+                   _o_same_direction, ctx, np, miller, hb, t, spec)
+    # 3. plane normals / vectors: every family x every orientation (as built, rotated, axes permuted, mirrored) +
+    #    dyadic + float triclinic, non-zero origins, fresh and re-used objects, both entry points;
+    #    exhaustive triples on the first cells
     nz = [t for t in tri if t != (0, 0, 0)]
-    for ci, (label, box) in enumerate(cells):
-        sel = nz if ci < ctx.n(4, 9) else rng.sample(nz, ctx.n(400, 3000))
+    descr = [_gen_cell(rng, fam, 'std') for fam in FAMILIES]
+    for fam in FAMILIES:
+        descr += [_gen_cell(rng, fam, o) for o in ('rot', 'perm', 'refl')]
+    for _ in range(ctx.n(1, 3) * mult):
+        descr += [_gen_cell(rng, 'dyadic', o) for o in ('std', 'perm', 'refl')]
+        descr += [_gen_cell(rng, 'float-triclinic', o) for o in ('std', 'rot')]
+    for _ in range(ctx.n(0, 2) * (mult - 1)):
+        descr += [_gen_cell(rng, fam, 'rot') for fam in FAMILIES]
+    cells = []
+    for ci, cell in enumerate(descr):
+        label = cell['label']
+        spec = _gen_spec(rng, cell, 0 if ci < 4 else None)
+        sel = nz if ci < ctx.n(4, 9) else rng.sample(nz, ctx.n(220, 2000))
+        vsel = rng.sample(nz, ctx.n(100, 800))
+        box = build(cell, spec, {'planes': [list(t) for t in sel], 'vectors': [list(t) for t in vsel]})
+        if box is None:
+            continue
+        cells.append((label, box, spec, cell))
+        entry = 'Box' if ci % 3 != 2 else 'miller'
         for t in sel:
             ctx.stats.case('oracle:normal', (label, ci, t))
-            _guard(ctx, 'plane_normal', {'op': 'normal', 'hkl': list(t), 'vects': box.vects.tolist(), 'cell': label},
-                   _o_normal, ctx, np, box, label, t, rng)
-        for t in rng.sample(nz, ctx.n(150, 1000)):
+            _guard(ctx, 'plane_normal', {'op': 'normal', 'hkl': list(t), 'spec': spec, 'cell': label, 'entry': entry},
+                   _o_normal, ctx, np, box, label, t, rng, None, spec, entry)
+        for t in vsel:
             ctx.stats.case('oracle:vector_cart', (label, ci, t))
-            _guard(ctx, 'vector_cart', {'op': 'vector_cart', 'uvw': list(t), 'vects': box.vects.tolist(), 'cell': label},
-                   _o_vector_cart, ctx, np, miller, box, label, t)
+            _guard(ctx, 'vector_cart', {'op': 'vector_cart', 'uvw': list(t), 'spec': spec, 'cell': label},
+                   _o_vector_cart, ctx, np, miller, box, label, t, spec)
+        ctx.stats.case('oracle:params', (label, ci))
+        _guard(ctx, 'params', {'op': 'params', 'spec': spec, 'cell': label}, _o_params, ctx, np, box, label, spec)
+    ctx.extra['oracle_cells'] = [f'{c[0]}:{_hist(c[2])}' for c in cells]
     r, e = _call(cells[0][1].plane_crystal_to_cartesian, [0, 0, 0])
     if e != 'err:value':
         ctx.violate('plane_normal:zero', 'the zero plane index vector is not rejected', {'op': 'normal-zero'})
@@ -1309,21 +1852,25 @@ def search(ctx, broken):
     def _hexlike(box):       # own reading of 'hexagonal' (a = b, 90, 90, 120) to pick cells that are clearly not
         a_, b_, c_, al_, be_, ga_ = _params(box)
         return abs(a_ - b_) < 1e-3 * a_ and abs(al_ - 90) < 0.1 and abs(be_ - 90) < 0.1 and abs(ga_ - 120) < 0.1
-    nonhex = [c for c in cells if c[0] != 'hexagonal' and not _hexlike(c[1])]
-    for hi in range(ctx.n(2, 5) * mult):
-        a, b, c = _generic_lengths(rng)
-        hb = am.Box.hexagonal(a, c)
-        for q in (quads if hi == 0 else rng.sample(quads, ctx.n(200, 1500))):
-            ctx.stats.case('oracle:normal4', (a, c, q))
+    nonhex = [c for c in cells if not c[0].startswith('hexagonal') and not _hexlike(c[1])]
+    for hi in range(ctx.n(4, 8) * mult):
+        cell = _gen_cell(rng, 'hexagonal', ORIENTS[hi % 4])
+        spec = _gen_spec(rng, cell, 0 if hi == 0 else None)
+        qsel = quads if hi == 0 else rng.sample(quads, ctx.n(150, 1500))
+        hb = build(cell, spec, {'planes': [list(q) for q in qsel]})
+        if hb is None:
+            continue
+        for q in qsel:
+            ctx.stats.case('oracle:normal4', (hi, cell['label'], q))
             _guard(ctx, 'plane_normal', {'op': 'normal', 'hkl': [q[0], q[1], q[3]], 'quad': list(q),
-                                         'vects': hb.vects.tolist(), 'cell': 'hexagonal'},
-                   _o_normal, ctx, np, hb, 'hexagonal', (q[0], q[1], q[3]), rng, q)
+                                         'spec': spec, 'cell': cell['label']},
+                   _o_normal, ctx, np, hb, cell['label'], (q[0], q[1], q[3]), rng, q, spec)
         for q in rng.sample(quads, ctx.n(40, 300)):
-            label, ob = rng.choice(nonhex)
-            ctx.stats.case('oracle:guard4', (a, c, label, q), nontrivial=False)
-            _guard(ctx, 'plane4_guard', {'op': 'plane4_guard', 'quad': list(q), 'hex': hb.vects.tolist(),
-                                         'other': ob.vects.tolist(), 'otherlabel': label},
-                   _o_plane4_guard, ctx, np, hb, ob, label, q)
+            label, ob, ospec, _c = rng.choice(nonhex)
+            ctx.stats.case('oracle:guard4', (hi, cell['label'], label, q), nontrivial=False)
+            _guard(ctx, 'plane4_guard', {'op': 'plane4_guard', 'quad': list(q), 'hexspec': spec, 'otherspec': ospec,
+                                         'otherlabel': label},
+                   _o_plane4_guard, ctx, np, hb, ob, label, q, spec, ospec)
     for _ in range(ctx.n(120, 1200) * mult):
         shape = rng.choice([None, None, (2, 2), (2, 3), (3, 1), (1, 2, 2)])
         cnt = rng.randint(2, 6)
@@ -1341,8 +1888,8 @@ def search(ctx, broken):
     hexb = am.Box.hexagonal(*[_generic_lengths(rng)[i] for i in (0, 2)])
     shape_targets = [('plane3to4', 3, None), ('vector3to4', 3, None), ('plane4to3', 4, None), ('vector4to3', 4, None),
                      ('reduce_indices', 3, None), ('reduce_indices', 4, None)]
-    for label, box in cells[:7] + cells[-2:]:
-        ex = {'vects': box.vects.tolist(), 'cell': label}
+    for label, box, spec_, _c in cells[:7] + rng.sample(cells[7:], min(len(cells) - 7, ctx.n(6, 12))):
+        ex = {'vects': box.vects.tolist(), 'cell': label, 'spec': spec_}
         shape_targets += [('vector_crystal_to_cartesian', 3, ex), ('plane_crystal_to_cartesian', 3, ex)]
     exh = {'vects': hexb.vects.tolist(), 'cell': 'hexagonal'}
     shape_targets += [('vector_crystal_to_cartesian', 4, exh), ('plane_crystal_to_cartesian', 4, exh),
@@ -1419,11 +1966,25 @@ def search(ctx, broken):
         ctx.stats.case('oracle:string', s)
         _guard(ctx, 'fromstring', {'op': 'string', 'string': s}, _o_string, ctx, np, miller, s)
     ctx.extra['string_classes'] = seen_classes
-    # 7. families
-    for _ in range(ctx.n(40, 400) * mult):
+    # 7. families: as the constructors give them ...
+    for _ in range(ctx.n(25, 400) * mult):
         for fam, args, box in _family_cells(rng):
             ctx.stats.case('oracle:family', (fam, args))
             _guard(ctx, 'family:' + fam, {'op': 'family', 'family': fam, 'args': list(args)}, _o_family, ctx, np, fam, args, box)
+    #    ... and in every orientation, at any origin, in fresh objects and in objects that held (and were asked about)
+    #    other cells before: query -> setter -> query, compared with the family built, a fresh Box, the predicates
+    for it in range(ctx.n(260, 3000) * mult):
+        kind = (FAMILIES + ['dyadic', 'float-triclinic'])[it % 9] if it % 10 else 'cubic'
+        cell = _gen_cell(rng, kind, ORIENTS[(it // 9) % 4])
+        spec = _gen_spec(rng, cell, rng.choice([0, 1, 1, 1, 2, 2, 3]))
+        ctx.stats.case('oracle:family-object', (cell['label'], _hist(spec), str(cell['vects'])))
+        box = build(cell, spec, None)
+        if box is None:
+            continue
+        _guard(ctx, 'family:object', {'op': 'family_obj', 'cell': cell, 'spec': spec}, _o_family_obj, ctx, np, cell, spec, box)
+        if it % 5 == 0:
+            _guard(ctx, 'params', {'op': 'params', 'spec': spec, 'cell': cell['label']}, _o_params, ctx, np, box,
+                   cell['label'], spec)
 
 
 def _replay(ctx, payload):
@@ -1437,13 +1998,25 @@ def _replay(ctx, payload):
     if op == 'roundtrip34':
         _o_roundtrip34(ctx, np, miller, r['idx'])
     elif op == 'same_direction':
-        _o_same_direction(ctx, np, miller, am.Box(vects=r['vects']), r['idx'])
+        t = r['idx']
+        hb = _build(_spec_of(r), {'vectors': [list(t), _ref_vector3to4(t).tolist()]})
+        _o_same_direction(ctx, np, miller, hb, t, r.get('spec'))
     elif op == 'normal':
-        _o_normal(ctx, np, am.Box(vects=r['vects']), r.get('cell', '?'), r['hkl'], rng, r.get('quad'))
+        box = _build(_spec_of(r), {'planes': [r.get('quad') or r['hkl']]})
+        _o_normal(ctx, np, box, r.get('cell', '?'), r['hkl'], rng, r.get('quad'), r.get('spec'), r.get('entry', 'Box'))
     elif op == 'vector_cart':
-        _o_vector_cart(ctx, np, miller, am.Box(vects=r['vects']), r.get('cell', '?'), r['uvw'])
+        box = _build(_spec_of(r), {'vectors': [r['uvw']]})
+        _o_vector_cart(ctx, np, miller, box, r.get('cell', '?'), r['uvw'], r.get('spec'))
     elif op == 'plane4_guard':
-        _o_plane4_guard(ctx, np, am.Box(vects=r['hex']), am.Box(vects=r['other']), r.get('otherlabel', '?'), r['quad'])
+        if 'hexspec' in r:
+            hb, ob = _build(r['hexspec'], {'planes': [r['quad']]}), _build(r['otherspec'], {'planes': [r['quad']]})
+        else:
+            hb, ob = am.Box(vects=r['hex']), am.Box(vects=r['other'])
+        _o_plane4_guard(ctx, np, hb, ob, r.get('otherlabel', '?'), r['quad'], r.get('hexspec'), r.get('otherspec'))
+    elif op == 'family_obj':
+        _o_family_obj(ctx, np, r['cell'], r['spec'], _build(r['spec'], None))
+    elif op == 'params':
+        _o_params(ctx, np, _build(_spec_of(r), None), r.get('cell', '?'), r.get('spec'))
     elif op == 'guard_array':
         _o_guard_array(ctx, np, miller, r['rows'], r['offs'], r.get('shape'))
     elif op == 'shape':
